@@ -58,7 +58,9 @@ CONSTANTS
   Cfgs,        \* set of configurations [rl |-> "single"|"follow", el |-> "single"|"follow", ab |-> "none"|"model"|"hand"]
                \* rl / el: resolver / exec layout; ab: `autobind:` lists the MODEL OUTPUT PACKAGE itself ("model": the
                \* package only holds a doc file next to models_gen.go, "hand": it also holds a hand-written model that
-               \* a schema type binds to) - every Generate of a history then loads the previous models_gen.go's package
+               \* a schema type binds to) - every Generate of a history then loads the previous models_gen.go's package;
+               \* "exec": autobind lists the EXEC package and the schema has a type named like a top-level identifier
+               \* of generated.go (Config) - every Generate then loads the package holding the previous generated.go
   ImpPairs,    \* fields whose resolver bodies may use user imports (bounds AddImport; Pairs = no restriction)
   InitSchemas, \* schemas a history may start from (the project has just been generated for the first time)
   MaxHist,     \* bound on the history length (finitises the model)
